@@ -146,7 +146,7 @@ int main(int argc, char **argv) {
             }
         }
     }
-    { char buf[64]; snprintf(buf, sizeof buf, "VP-DIGEST %016llx", (unsigned long long) g_digest); std::cout << buf << std::endl; }
+    vp_dig(g_digest);       // printed by Stats::print as VP-DIGEST
     st.print("e3_dimacs", false,
             "grammar enumerator: n<=4 declared vertices, <=3 (thorough 4) edge lines over (endpoints incl. the undeclared ids n+1, 0 and -1) x {e,a} x weight forms {omitted,5,2.5,-3,0,17,0.125}, exhaustive for <=1 line and strided beyond, x 4 comment placements x {final newline, none}; predicates on every multigraph (loops allowed) with <=4 vertices and <=4 (5) edges; distinct by text",
             std::string("maxlines=") + std::to_string(maxlines) + " maxe=" + std::to_string(maxe));
